@@ -68,7 +68,7 @@ def worker_loop(ctx) -> None:
             continue
         ctx.check(cnt == (1, 1), 'R-EXACTLY-ONE', fn, f'results put per fetched task on every path to the {label}: (min, max) = {cnt}; expected exactly one', loop, key=f'worker:{label}')
     allputs = [c for st in graph.statements() for c in puts(st)]
-    ctx.floor('C16.worker-puts', len(allputs), 3)
+    ctx.floor('C16.worker-puts', len(allputs), 2)
     for c in allputs:
         arg = c.args[0] if c.args else None
         ok = isinstance(arg, ast.Call) and isinstance(arg.func, ast.Attribute) and arg.func.attr in ('success', 'failure') and core.src(arg.func.value) == tvar
